@@ -1,5 +1,7 @@
 """C07 -- see properties.jsonl; theorems in coq/Props/C07.v, tie: the dispatch correspondence in the
 observables of this property, plus the property's direct oracle on every observed frame."""
+import json
+
 from harness import common as C
 from harness import gen_dispatch as GD
 from harness import oracles as O
@@ -31,6 +33,26 @@ def body_factory(tier, seed):
             return
         GD.run_cases(rep, cases, PROP, PROP, ORACLE, async_modes=modes, view=VIEW, kinds=KINDS)
         GD.run_repeats(rep, cases, PROP, ("ok", "explicit", "raise-"))
+        # a coroutine handler that takes longer than the endpoint's response timeout (which bounds the wait for
+        # replies to OUR requests, nothing else): it is awaited to its end, the reply is built from what it
+        # returns and the hook runs afterwards
+        from harness import impl_dispatch as D
+        for version in ("1.6", "2.0.1"):
+            slow = g.route("Heartbeat", ("ret", {"current_time": "t"}), is_async=True, after=("ret",))
+            slow.pop("after_first", None)
+            slow["on"]["sleep"] = 0.05
+            frames = ['[2,"slow-1","Heartbeat",{}]', '[2,"slow-2","Heartbeat",{}]']
+            seq, how = D.observe_loop(version, [slow], frames, "closed", False, response_timeout=0.01)
+            rep.count("slow-handler:" + version)
+            hs = [e for e in seq if e[0] == "handler"]
+            ws = [json.loads(e[1]) for e in seq if e[0] == "send"]
+            afters = [e for e in seq if e[0] == "after"]
+            if not (len(hs) == 2 and len(ws) == 2 and all(w[0] == 3 for w in ws) and len(afters) == 2):
+                rep.violation("C07:slow-handler:%s" % version,
+                              "a coroutine handler slower than response_timeout: %d handler run(s), replies %r, %d hook run(s)" % (
+                                  len(hs), [w[:3] for w in ws], len(afters)),
+                              {"kind": "slow-handler", "version": version, "routes": [slow], "frames": frames,
+                               "response_timeout": 0.01, "observation": seq, "ended": how})
         for c in (cases[25], cases[len(cases) // 2], cases[-1]):
             rep.sample({"stratum": c[0], "version": c[1], "frame": str(c[3])[:200]})
     return body
@@ -47,6 +69,20 @@ def run(rep, tier, seed):
 def replay(d):
     if d.get("kind") == "repeat":
         return GD.replay_repeat(d)
+    if d.get("kind") == "slow-handler":
+        from harness import impl_dispatch as D
+        routes = d["routes"]
+        for r in routes:
+            for k in ("on", "after"):
+                if r.get(k):
+                    r[k]["out"] = tuple(r[k]["out"])
+        seq, how = D.observe_loop(d["version"], routes, d["frames"], "closed", False, response_timeout=d["response_timeout"])
+        ws = [json.loads(e[1]) for e in seq if e[0] == "send"]
+        ok = len([e for e in seq if e[0] == "handler"]) == 2 and len(ws) == 2 and all(w[0] == 3 for w in ws) and \
+            len([e for e in seq if e[0] == "after"]) == 2
+        print("replies:", [w[:3] for w in ws])
+        print("HOLDS" if ok else "FAILS")
+        return 0 if ok else 1
     from harness import impl_dispatch as D
     raw = d["frame"] if isinstance(d["frame"], str) else bytes.fromhex(d["frame"]["hex"])
     routes = d["routes"]
